@@ -362,7 +362,7 @@ func (sc *c17Scenario) oraclesE2E() {
 func genC17E2E(c *ctx) {
 	work, _ := os.MkdirTemp("", "c17_e2e_")
 	defer os.RemoveAll(work)
-	n := c.pick(48, 600)
+	n := c.pick(72, 900)
 	cases := make([]*c17E2ECase, n)
 	intr := []int{c17Wrong, c17PrefixWrongID, c17Split, c17Extended, c17Full13, c17Flood, c17Silent, c17CloseNow, c17ServerHello}
 	for i := range cases {
